@@ -7,7 +7,7 @@ CONSTANTS
   Variants = {0, 1, 2, 3}
   LaxTolerated = {"nonMinimalInteger", "emptyOID", "printableIsLatin1", "printableIsT61"}
   AlwaysRejected = {"nonMinimalLength", "leadingZeroLength", "indefiniteLength", "nonMinimalTag", "truncated",
-                    "wrongTag", "requiredFieldMissing", "explicitEmpty", "emptyInteger", "integerTooLarge",
+                    "wrongTag", "requiredFieldMissing", "explicitPrimitive", "emptyInteger", "integerTooLarge",
                     "oidTruncatedArc", "oidArcTooLarge", "printableIsNeither", "badUTF8", "badIA5", "badNumeric",
                     "badBool", "boolTwoOctets", "badBitStringPadding", "bitStringPadTooBig", "emptyBitString", "badTime"}
   DeliberateDiff = {"oidArcLeading80", "highTagLeading80", "genTimeFraction", "setOfUnsorted"}
@@ -17,6 +17,7 @@ CONSTANTS
   TimeBoundaries = {1950, 2050}
   TimeMinutes <- MCTimeMinutes
   TimeOffsets <- MCTimeOffsets
+  StringFormShapes = {}   \* (a constant of the case enumeration; the walks draw string forms wherever they apply)
 INIT HInit
 NEXT HNext
 INVARIANTS HistTypeOK CallIsFunction FreshIsAlone KeepsOnlyAbsentOptional ElementsAreFresh FullWriteForgets
